@@ -16,7 +16,7 @@ CONSTANTS
   MaxRet = 4
   DistinctRets = TRUE
   MaxUnionArgs = 1
-  EmitOneIn = 2
+  EmitOneIn = 3
 INVARIANT PropertyHolds
 INVARIANT MachineIsOperator
 INVARIANT BinderAgrees
